@@ -128,6 +128,7 @@ class ExecBase:
         self.warnings = []
         self._solver = None
         self.inv_tags = {}
+        self._qf_cache = {}
         self.paranoid = bool(__import__('os').environ.get('PYVC_PARANOID'))
         self._wf_done = set()
 
@@ -235,7 +236,15 @@ class ExecBase:
             return VBool(PyU.b(v.t))
         if isinstance(want, TRefS) and not self.feasible(st, z3.And(tg != 4, tg != 0)):
             return VRef(z3.If(tg == 4, PyU.r(v.t), 0), want.cls)
+        if isinstance(want, TList) and isinstance(want.elem, TStrS) and not self.feasible(st, tg != 5):
+            return VList(PyU.l(v.t), TList(Str))
         return v
+
+    def narrow_deep(self, st, v, want: Sort):
+        "narrow a value (or the items of a concrete-structure list) towards the wanted sort"
+        if isinstance(v, VTuple) and isinstance(want, TList):
+            return VTuple([self.narrow(st, i, want.elem) for i in v.items], v.is_list)
+        return self.narrow(st, v, want)
 
     def write_field(self, st, obj: VRef, name, v: Val):
         s = self.field_sort(name, obj.cls)
@@ -319,15 +328,29 @@ class ExecBase:
                 self.assume_wf(st, it, nullable)
 
     # ------------------------------------------------------------ solver helpers
+    def _qf(self, t):
+        k = t.get_id()
+        r = self._qf_cache.get(k)
+        if r is None:
+            from .smt import has_quantifier
+            r = not has_quantifier(t)
+            self._qf_cache[k] = r
+        return r
+
     def feasible(self, st, extra=None):
+        """over-approximate feasibility: only the quantifier-free part of the path condition is given to the solver, so a
+        feasible path is never pruned (an infeasible one may survive: its obligations are then trivially valid)"""
         s = z3.Solver()
         s.set("timeout", self.feas_timeout)
         for a in ops_mod.DEFAULT_AXIOMS:
-            s.add(a)
+            if self._qf(a):
+                s.add(a)
         for a in self.axioms:
-            s.add(a)
+            if self._qf(a):
+                s.add(a)
         for p in st.pc:
-            s.add(p)
+            if self._qf(p):
+                s.add(p)
         if extra is not None:
             s.add(extra)
         r = s.check()
